@@ -104,7 +104,7 @@ def check_model(name, S, facts, worlds, consts, out, rng, tier, nsent):
                             if I.preds.get((w, p, ps2), 'F') != 'T':
                                 probs.append('extension-not-closed-under-identity')
             if probs:
-                viol('classical-identity', dict(clause='identity/existence', problems=sorted(set(probs))),
+                viol('classical-identity', dict(clause='identity/existence', problems='+'.join(sorted(set(probs)))),
                      f'world {w}: {sorted(set(probs))}; model {I.describe()}')
                 break
     # ---- (1) evaluation
